@@ -1,5 +1,6 @@
 import MiniconfVerif.Lemmas.Enum
 import MiniconfVerif.Model.Transcode
+import MiniconfVerif.Model.Hyp
 
 /-! `traverse_by_key` driven by a list of in-range-or-not indices (the `NodeIter` state
 wrapped in the always-finalizing `Consume`, or a plain `KeysIter` of integers) as a pure
@@ -70,16 +71,6 @@ theorem wf_at? (s t : Schema) (q : List Nat) (h : s.WF) (ht : s.at? q = some t) 
       simp only [hc] at ht
       rw [child?_eq_kids] at hc
       exact ih c (wf_kids s h c (List.mem_of_getElem? hc)) ht
-
-/-- decidable sufficient condition for `Small` -/
-def Schema.smallB : Schema → Bool
-  | .leaf => true
-  | .node _ cs => decide (cs.length ≤ 2 ^ 64) && go cs
-  | .array n c => decide (n ≤ 2 ^ 64) && c.smallB
-where
-  go : List Schema → Bool
-    | [] => true
-    | c :: cs => c.smallB && go cs
 
 theorem smallB_go_mem : ∀ (cs : List Schema), Schema.smallB.go cs = true → ∀ c ∈ cs, c.smallB = true
   | [], _, _, h => by simp at h
